@@ -12,6 +12,6 @@ SPECS['find_authority_delimiter_special'] = 'find_authority_delimiter_special.sp
 SPECS['parse_url_impl_agg_1'] = 'parse_url_impl_agg_1.cut.spec'
 OBLS.append(Obl('C09.parse_url_impl<url_aggregator,true>.exit_size', ['C09', 'C02'], 'Pinf', 'c09/parse_exit_size.c', roots=['parse_url_impl_agg_1'],
                 stub=ABSTRACT, specs=SPECS, bufn=8, defines=['STR_CAP=6', 'BUF_START=1'], includes=INC, globals=[('omitted', 'const unsigned int')], enums=[('ada::state', x) for x in ('PORT', 'FRAGMENT', 'RELATIVE_SCHEME', 'RELATIVE_SLASH', 'SPECIAL_RELATIVE_OR_AUTHORITY', 'AUTHORITY')],
-                solver='cadical', timeout=3000, object_bits=12, unwind=8,
+                solver='cadical', timeout=3000, object_bits=12, unwind=12,
                 note='every exit of the parser state machine (loops cut: one arbitrary iteration from an arbitrary state): valid => href length <= limit; oversized input refused; '
                      'editors and sub-parsers abstract (arbitrary effect), so the argument does not depend on input length'))
